@@ -63,8 +63,16 @@ int main(int argc, char** argv)
                 p2.push_back(p);
         prims.swap(p2);
     }
-    uint64_t outer = 0;
+    // thorough: first the complete lattice at bound 2, then bound 3 for as many roots as the
+    // deadline allows (the completed bound is reported; a cut bound-3 pass is a declared cap)
+    std::vector<int> passes = {bound};
+    if (thorough && !rng_part)
+        passes = {2, 3};
     ExploreStats total;
+    for (int pass_bound : passes)
+    {
+    uint64_t outer = 0;
+    bool pass_complete = true;
     for (auto& cc : configs)
     {
         std::unique_ptr<LoopProblem> P;
@@ -74,7 +82,10 @@ int main(int argc, char** argv)
             if (!R.mine(idx))
                 continue;
             if (R.expired())
+            {
+                pass_complete = false;
                 break;
+            }
             std::string root = cc.id + ":" + pc.id;
             if (R.replay() && R.replay_case().compare(0, root.size() + 1, root + "|") != 0)
                 continue;
@@ -183,7 +194,9 @@ int main(int argc, char** argv)
             }
             else
             {
-                explore(body, on_exec, bound, &st);
+                explore(body, on_exec, pass_bound, &st);
+                if (st.stopped)
+                    pass_complete = false;
             }
             total.executions += st.executions;
             R.count("choice_points", st.choice_points);
@@ -192,7 +205,22 @@ int main(int argc, char** argv)
             R.end_case();
         }
         if (R.expired())
+        {
+            pass_complete = false;
             break;
+        }
+    }
+    if (pass_complete)
+    {
+        R.note("bound_completed", std::to_string(pass_bound));
+        R.count(fmt("pass_bound_%d_completed_shards", pass_bound));
+    }
+    else if (passes.size() > 1 && pass_bound == passes.back())
+    {
+        R.tag("bound-3-pass-cut-by-deadline");
+    }
+    if (R.replay())
+        break;
     }
     R.note("deviation_bound", std::to_string(bound));
     R.sample("g1.linear.s3.o0.x1:k0.e2.p0.d0|3.0.4 = 100 MeV gamma from the centre along +x, 3 "
